@@ -2,9 +2,11 @@
 package lib
 
 import (
+	"context"
 	"sort"
 	"sync"
 	"sync/atomic"
+	"time"
 )
 
 type Box struct {
@@ -223,4 +225,60 @@ func InitSend(ch chan int) int {
 		return <-ch
 	}
 	return -1
+}
+
+// Timeout: a result that never comes, a timer that does.
+func Timeout() int {
+	never := make(chan int)
+	select {
+	case v := <-never:
+		return v
+	case <-time.After(50 * time.Millisecond):
+		return -1
+	}
+}
+
+// Cancel: a worker waits for ctx.Done() (closed by the context package, which
+// is not instrumented) and reports; the caller cancels and joins.
+func Cancel() int {
+	ctx, cancel := context.WithCancel(context.Background())
+	out := make(chan int, 1)
+	go func() {
+		<-ctx.Done()
+		out <- 7
+	}()
+	cancel()
+	return <-out
+}
+
+// CancelSelect: the same with a select between work and ctx.Done().
+func CancelSelect() int {
+	ctx, cancel := context.WithCancel(context.Background())
+	defer cancel()
+	work := make(chan int)
+	res := make(chan int, 1)
+	go func() {
+		n := 0
+		for {
+			select {
+			case v := <-work:
+				n += v
+			case <-ctx.Done():
+				res <- n
+				return
+			}
+		}
+	}()
+	work <- 1
+	work <- 2
+	cancel()
+	return <-res
+}
+
+// AfterFunc: a callback on a runtime-started goroutine.
+func AfterFunc() int {
+	got := make(chan int, 1)
+	t := time.AfterFunc(10*time.Millisecond, func() { got <- 5 })
+	defer t.Stop()
+	return <-got
 }
